@@ -69,6 +69,8 @@ def absorb(ctx, R, what, cases):
     for v in R.get("violations") or []:
         path = ctx.save_replay("%s-%s" % (what, v["key"]), v)
         ctx.violation("%s: real nsqd broke %s: %s" % (what, v["key"], v["what"]), path, key=v["key"])
+    if R.get("foreign_queries"):
+        ctx.notes.setdefault("foreign_auth_queries", []).extend(R["foreign_queries"][:5])
     for d in (R.get("drift") or [])[:10]:
         ctx.drift("%s: real nsqd and NsqdPolicy!Out disagree: %s" % (what, d))
     if R.get("inconclusive"):
